@@ -207,9 +207,10 @@ def vec_syntactic_equal(a, b):
     for k in a.c:
         x, y = a.c[k], b.c[k]
         if isinstance(x, SNum) or isinstance(y, SNum):
-            d = z3.simplify(SNum.lift(x).t - SNum.lift(y).t) if True else None
-            c = sym._const_of(d)
-            if c is None or c != 0:
+            from vc.discharge import poly, _padd
+
+            cache = {}
+            if _padd(poly(SNum.lift(x).t, cache), poly(SNum.lift(y).t, cache), -1) != {}:
                 return False
         elif x != y:
             return False
